@@ -29,7 +29,28 @@ def run_part(ctx, vh=None, md=None):
     return n, nev
 
 
+def run_cmd_part(ctx, vh=None, md=None):
+    """the loops of encode and plot (spec/cli/CmdLoop.tla); runs inside C08 and C17, whose anchors include them"""
+    vh = vh or ctx.build_harness()
+    md = md or ctx.build_maindrv()
+    for cfg in ("MCCmdLoop_encode.cfg", "MCCmdLoop_plot.cfg"):
+        ctx.model_check("cli", "MCCmdLoop", cfg)
+    r = ctx.model_check("cli", "MCCmdLoop", "MCCmdLoopDrop.cfg", expect_ok=False)
+    if "Invariant DoneWritesAll is violated" not in r["out"]:
+        raise core.Infra("sensitivity: an encode loop that looks at the signal between Decode and Encode no longer loses a record in the model")
+    out2 = ctx.sub("cmdloop")
+    ctx.run_driver(vh, "TestDrv_CmdLoop", out2, {"VERIF_MAINDRV": md})
+    n2, nev2, rej2 = core.validate_cases(ctx, "cli", "CmdLoopTrace", "CmdLoopTrace.cfg", os.path.join(out2, "cmdloop.ndjson"), prefix="cmdloop")
+    report_rejections(ctx, rej2, lambda l, o: "CmdLoop:" + l[0].strip()[:160], "run of the encode / plot command rejected by CmdLoop (the output is the prefix read, whole unless interrupted)")
+    summ2 = json.load(open(os.path.join(out2, "cmdloop.summary.json")))
+    ctx.coverage.update({"encode_plot_loop_runs": summ2["runs"], "encode_plot_loop_interrupted": summ2["interrupted"],
+                         "encode_plot_loop_interrupted_with_partial_output": summ2["interrupted_with_partial_output"]})
+    return n2, nev2
+
+
 def run(ctx):
     n, nev = run_part(ctx)
+    n2, nev2 = run_cmd_part(ctx)
+    n, nev = n + n2, nev + nev2
     ctx.coverage.update({"traces_validated_against_impl": n, "trace_events": nev})
     return "model_checking"
